@@ -8,5 +8,5 @@ for p in "$@"; do
   out=$(cd /verif && bin/check $p --tier quick 2>&1)
   rc=$?
   echo "== $p rc=$rc"
-  echo "$out" | grep -E 'VIOLATION|label=|KNOWN|TOOL' | sed 's/replay=.*replays/replay=...replays/' | cut -c1-220 | head -12
+  echo "$out" | grep -E 'VIOLATION|label=|TOOL' | sed 's/replay=.*replays/replay=...replays/' | cut -c1-220 | head -12
 done
